@@ -905,6 +905,7 @@ Proof.
   - cbn [render_val]. destruct v; try (eexists; reflexivity).
     + cbn in Hv. destruct (hget h o) as [f|] eqn:Ho; [|discriminate].
       destruct (is_array_name (o_type f)) eqn:A; [|eexists; reflexivity].
+      destruct (nonempty act && is_some (dget (o_id f) d)); [eexists; reflexivity|].
       destruct (memN o act) eqn:M; [eexists; reflexivity|].
       destruct (elements_shape o f Ho A) as [->|(l & El)]; [eexists; reflexivity|]. rewrite El.
       assert (val_ok h (VList l) = true) as Hl by (rewrite <- El; eapply slot_val_ok; [exact Ho|discriminate]).
@@ -1968,7 +1969,8 @@ Qed.
 End Sensitive3.
 
 (* ================================================================================================ I.2 an array element *)
-(* repr of an array element that is not itself an array: a primitive, None, or a reference rendered as an anchor *)
+(* repr of an array element: a primitive, None, a reference to a non-array structure rendered as its anchor, or (23e9ca1)
+   a reference to an array that has an anchor -- a listed array -- rendered as that anchor, not by its content *)
 Definition srepr (ff : flt -> string) (rs : string -> string) (h : heap) (d : adict) (v : val) : option string :=
   match v with
   | VNone => Some (rs NULL)
@@ -1977,17 +1979,21 @@ Definition srepr (ff : flt -> string) (rs : string -> string) (h : heap) (d : ad
   | VBool b => Some (b2s b)
   | VStr s => Some (rs s)
   | VRef q => match hget h q with
-              | Some fq => if is_array_name (o_type fq) then None
+              | Some fq => if is_array_name (o_type fq)
+                           then match dget (o_id fq) d with Some a => Some (rs a) | None => None end
                            else Some (match dget (o_id fq) d with Some a => rs a | None => "None" end)
               | None => None end
   | _ => None
   end.
-Lemma srepr_render ff rs h d v c k act : srepr ff rs h d v = Some c ->
+Lemma srepr_render ff rs h d v c k act : act <> [] -> srepr ff rs h d v = Some c ->
   exists p, render_val (S k) h d act v = Ok p /\ repr_pv ff rs p = c.
 Proof.
+  intros Hact.
   destruct v; cbn [srepr render_val]; intros H; try discriminate; try (injection H as <-; eexists; split; reflexivity).
-  destruct (hget h o) as [fq|]; [|discriminate]. destruct (is_array_name (o_type fq)); [discriminate|].
-  injection H as <-. eexists. split; [reflexivity|]. destruct (dget (o_id fq) d); reflexivity.
+  destruct (hget h o) as [fq|]; [|discriminate]. destruct (is_array_name (o_type fq)).
+  - destruct (dget (o_id fq) d) as [a|]; [|discriminate]. injection H as <-.
+    destruct act; [contradiction|]. eexists. split; reflexivity.
+  - injection H as <-. eexists. split; [reflexivity|]. destruct (dget (o_id fq) d); reflexivity.
 Qed.
 
 Definition join_pre (l : list string) : string := fold_right (fun s acc => s +++ ", " +++ acc) "" l.
@@ -2003,20 +2009,20 @@ Proof.
     change (join_pre (a :: A)) with (a +++ ", " +++ join_pre A). rewrite !append_assoc. reflexivity.
 Qed.
 
-Lemma elems_cell_differ ff rs h d k act pre e e' post r r' c c' :
+Lemma elems_cell_differ ff rs h d k act pre e e' post r r' c c' : act <> [] ->
   mapM (render_val (S k) h d act) (pre ++ e :: post) = Ok r ->
   mapM (render_val (S k) h d act) (pre ++ e' :: post) = Ok r' ->
   srepr ff rs h d e = Some c -> srepr ff rs h d e' = Some c' -> c <> c' ->
   cell ff rs (PList r) <> cell ff rs (PList r').
 Proof.
-  intros M M' S S' Hne E.
+  intros Hact M M' S S' Hne E.
   apply mapM_app in M as (r1 & r2 & M1 & M2 & ->). apply mapM_app in M' as (r1' & r2' & M1' & M2' & ->).
   rewrite M1 in M1'. injection M1' as <-.
   cbn [mapM] in M2, M2'. apply bind_ok in M2 as (p & Hp & M2). apply bind_ok in M2 as (ps & Hps & M2). injection M2 as <-.
   apply bind_ok in M2' as (p' & Hp' & M2'). apply bind_ok in M2' as (ps' & Hps' & M2'). injection M2' as <-.
   rewrite Hps in Hps'. injection Hps' as <-.
-  destruct (srepr_render ff rs h d e c k act S) as (q & Hq & Hc). rewrite Hp in Hq. injection Hq as <-.
-  destruct (srepr_render ff rs h d e' c' k act S') as (q' & Hq' & Hc'). rewrite Hp' in Hq'. injection Hq' as <-.
+  destruct (srepr_render ff rs h d e c k act Hact S) as (q & Hq & Hc). rewrite Hp in Hq. injection Hq as <-.
+  destruct (srepr_render ff rs h d e' c' k act Hact S') as (q' & Hq' & Hc'). rewrite Hp' in Hq'. injection Hq' as <-.
   cbn [cell repr_pv] in E. apply append_inv_head in E. apply append_inv_tail in E.
   rewrite !map_app in E. cbn [map] in E. rewrite !join_comma_mid in E. apply append_inv_head in E. apply append_inv_tail in E.
   congruence.
@@ -2030,8 +2036,10 @@ Proof.
   intros Ha Et Ei Arr. induction k as [|k IH]; intros act v Hin; [reflexivity|]. cbn [render_val].
   destruct v; try reflexivity.
   - rewrite hget_hset, Ha. destruct (N.eqb o a) eqn:E.
-    + apply N.eqb_eq in E. subst o. rewrite Ha, Et, Ei, Arr. rewrite (proj2 (memN_In a act) Hin). reflexivity.
+    + apply N.eqb_eq in E. subst o. rewrite Ha, Et, Ei, Arr. rewrite (proj2 (memN_In a act) Hin).
+      destruct (nonempty act && is_some (dget (o_id fa) d)); reflexivity.
     + destruct (hget h o) as [f|]; [|reflexivity]. destruct (is_array_name (o_type f)); [|reflexivity].
+      destruct (nonempty act && is_some (dget (o_id f) d)); [reflexivity|].
       destruct (memN o act); [reflexivity|]. destruct (slot f "elements"); try reflexivity.
       rewrite (mapM_ext_in _ (render_val k h d (o :: act))); [reflexivity|]. intros x _. apply IH. right. exact Hin.
   - rewrite (mapM_ext_in _ (render_val k h d act)); [reflexivity|]. intros x _. apply IH. exact Hin.
@@ -2043,10 +2051,34 @@ Proof.
   destruct (N.eqb o x) eqn:E; [|reflexivity]. apply N.eqb_eq in E. subst o. rewrite Hx, Ht, Hi. reflexivity.
 Qed.
 
-Lemma render_val_ref_array k h d act o f l : hget h o = Some f -> is_array_name (o_type f) = true ->
-  memN o act = false -> slot f "elements" = VList l ->
-  render_val (S k) h d act (VRef o) = (do r <- mapM (render_val k h d (o :: act)) l ;; Ok (PList r)).
-Proof. intros H A M E. cbn [render_val]. rewrite H, A, M, E. reflexivity. Qed.
+(* an array held directly by a feature (no array is being rendered above it) is expanded by content *)
+(* 23e9ca1, the other side of the coin: while some array is being rendered, the CONTENT of an array that has an anchor is
+   not looked at -- the outer cell shows the anchor only; a change inside such a nested array shows in its own row
+   (sensitive_array_element_listed), not in the cell of the array or feature it is nested in *)
+Lemma render_val_nested_agree h d b fb fb' ab : hget h b = Some fb -> o_type fb' = o_type fb -> o_id fb' = o_id fb ->
+  is_array_name (o_type fb) = true -> dget (o_id fb) d = Some ab ->
+  forall k act v, act <> [] -> render_val k (hset h b fb') d act v = render_val k h d act v.
+Proof.
+  intros Hb Et Ei Arr D. induction k as [|k IH]; intros act v Hact; [reflexivity|]. cbn [render_val].
+  destruct v; try reflexivity.
+  - rewrite hget_hset, Hb. destruct (N.eqb o b) eqn:E.
+    + apply N.eqb_eq in E. subst o. rewrite Hb, Et, Ei, Arr, D. destruct act; [contradiction|reflexivity].
+    + destruct (hget h o) as [f|]; [|reflexivity]. destruct (is_array_name (o_type f)); [|reflexivity].
+      destruct (nonempty act && is_some (dget (o_id f) d)); [reflexivity|].
+      destruct (memN o act); [reflexivity|]. destruct (slot f "elements"); try reflexivity.
+      rewrite (mapM_ext_in _ (render_val k h d (o :: act))); [reflexivity|]. intros x _. apply IH. discriminate.
+  - rewrite (mapM_ext_in _ (render_val k h d act)); [reflexivity|]. intros x _. apply IH. exact Hact.
+Qed.
+
+Lemma render_val_ref_array k h d o f l : hget h o = Some f -> is_array_name (o_type f) = true ->
+  slot f "elements" = VList l ->
+  render_val (S k) h d [] (VRef o) = (do r <- mapM (render_val k h d [o]) l ;; Ok (PList r)).
+Proof. intros H A E. cbn [render_val]. rewrite H, A, E. reflexivity. Qed.
+(* 23e9ca1: an array met while another array is being rendered is referred to by its anchor when it has one *)
+Lemma render_val_nested_array k h d act o f a : hget h o = Some f -> is_array_name (o_type f) = true ->
+  act <> [] -> dget (o_id f) d = Some a ->
+  render_val (S k) h d act (VRef o) = Ok (PStr a).
+Proof. intros H A N D. cbn [render_val]. rewrite H, A, D. destruct act; [contradiction|reflexivity]. Qed.
 Lemma render_val_list k h d act l :
   render_val (S k) h d act (VList l) = (do r <- mapM (render_val k h d act) l ;; Ok (PList r)).
 Proof. reflexivity. Qed.
@@ -2139,16 +2171,16 @@ Proof.
   assert (slot fa' "elements" = VList (pre ++ e' :: post)) as El'.
   { unfold fa'. rewrite slot_set. reflexivity. }
   remember (S (List.length h)) as k eqn:Ek.
-  rewrite (render_val_ref_array k h d [] a fa _ Ha Arr eq_refl El) in H1.
-  rewrite (render_val_ref_array k (hset h a fa') d [] a fa' (pre ++ e' :: post)) in H2;
-    [|rewrite hget_hset, N.eqb_refl, Ha; reflexivity|exact Arr|reflexivity|exact El'].
+  rewrite (render_val_ref_array k h d a fa _ Ha Arr El) in H1.
+  rewrite (render_val_ref_array k (hset h a fa') d a fa' (pre ++ e' :: post)) in H2;
+    [|rewrite hget_hset, N.eqb_refl, Ha; reflexivity|exact Arr|exact El'].
   rewrite (mapM_ext_in _ (render_val k h d [a])) in H2.
   2:{ intros v _. apply (render_val_agree h d a fa fa' Ha eq_refl eq_refl Arr). left. reflexivity. }
   subst k.
   apply bind_ok in H1 as (p & Hp & H1). apply bind_ok in Hp as (r1 & Hr1 & Hp). injection Hp as <-.
   apply bind_ok in H2 as (p' & Hp' & H2). apply bind_ok in Hp' as (r2 & Hr2 & Hp'). injection Hp' as <-.
   assert (E : cell ff rs (PList r1) = cell ff rs (PList r2)) by (rewrite <- H2 in H1; exact (f_equal (fun r => match r with Ok y => y | _ => "" end) H1)).
-  revert E. eapply elems_cell_differ; eauto.
+  revert E. eapply (elems_cell_differ ff rs h d _ [a]); eauto. discriminate.
 Qed.
 
 (* C20 render_sensitive (array element, array listed itself) *)
@@ -2186,6 +2218,18 @@ Proof.
   apply bind_ok in Hc2 as (p' & Hp' & H2). apply bind_ok in Hp' as (r2 & Hr2 & Hp'). injection Hp' as <-.
   assert (E' : cell ff rs (PList r1) = cell ff rs (PList r2)).
   { rewrite <- E in H2. rewrite <- H2 in H1. exact (f_equal (fun r => match r with Ok y => y | _ => "" end) H1). }
-  revert E'. eapply elems_cell_differ; eauto.
+  revert E'. eapply (elems_cell_differ ff rs h d _ [a]); eauto. discriminate.
+Qed.
+
+(* the row of a listed array a does not change when the elements of ANOTHER array b that has an anchor change: where b is
+   nested in a, a's row holds b's anchor *)
+Theorem listed_array_row_ignores_nested vs h d ti isann a fa b fb fb' ab :
+  a <> b -> is_array_name (o_type fa) = true ->
+  hget h b = Some fb -> is_array_name (o_type fb) = true -> o_type fb' = o_type fb -> o_id fb' = o_id fb ->
+  dget (o_id fb) d = Some ab ->
+  render_fs ff rs vs (hset h b fb') d ti isann (a, fa) = render_fs ff rs vs h d ti isann (a, fa).
+Proof.
+  intros Hab Arr Hb ArrB Et Ei D. unfold render_fs. cbn [fst snd]. rewrite Arr, hset_length.
+  rewrite (render_val_nested_agree h d b fb fb' ab Hb Et Ei ArrB D) by discriminate. reflexivity.
 Qed.
 End Sensitive4.
